@@ -166,3 +166,22 @@ impl Bytes {
     #[verifier::external_body]
     pub fn as_ref(&self) -> (r: &[u8]) ensures r@ == self@ { &self.inner[..] }
 }
+
+// ---- str range indexing (A4): `&s[a..b]` / `&s[a..]` return the sub-string between two char boundaries
+//      (std panics when an index is not on a char boundary or out of range: that is the `requires`)
+pub open spec fn byte_off(s: Seq<char>, k: int) -> nat { sbytes(s.take(k)).len() }
+#[verifier::external_body]
+pub fn str_slice<'a>(s: &'a str, a: usize, b: usize) -> (r: &'a str)
+    requires exists|ka: int, kb: int| 0 <= ka <= kb <= s@.len() && byte_off(s@, ka) == a && byte_off(s@, kb) == b
+    ensures forall|ka: int, kb: int| 0 <= ka <= kb <= s@.len() && byte_off(s@, ka) == a && byte_off(s@, kb) == b ==> r@ == s@.subrange(ka, kb)
+{ &s[a..b] }
+#[verifier::external_body]
+pub fn str_slice_from<'a>(s: &'a str, a: usize) -> (r: &'a str)
+    requires exists|ka: int| 0 <= ka <= s@.len() && byte_off(s@, ka) == a
+    ensures forall|ka: int| 0 <= ka <= s@.len() && byte_off(s@, ka) == a ==> r@ == s@.subrange(ka, s@.len() as int)
+{ &s[a..] }
+// str::starts_with(&str) (R28)
+#[verifier::external_body]
+pub fn str_starts_with(s: &str, pat: &str) -> (r: bool)
+    ensures r == (pat@.len() <= s@.len() && s@.take(pat@.len() as int) == pat@)
+{ s.starts_with(pat) }
